@@ -9,3 +9,55 @@ package common
 //@   requires shift >= 0 ==> in64(index * pow2(shift))
 //@   ensures r0 == ashift(index, shift)
 //@ end
+
+//@ -- set helpers (C20, C16).  T is the element type parameter.
+//@ func Unique
+//@   props C20 C16 C03 C04 C06 C08 C14
+//@   ensures nodup(r0)
+//@   ensures forall e: T :: in(e, r0) <==> in(e, target)
+//@   loop 0 invariant forall e: T :: has(s, e) <==> (exists k :: 0 <= k && k < $i && target[k] == e)
+//@   loop 1 invariant len(r) == $n && (forall k :: 0 <= k && k < $n ==> r[k] == $key(k))
+//@ end
+
+//@ func Include
+//@   props C20 C01 C06 C15
+//@   ensures r0 <==> in(target, slice)
+//@   loop 0 invariant forall k :: 0 <= k && k < $i ==> slice[k] != target
+//@ end
+
+//@ func Max
+//@   props C20
+//@   ensures len(numbers) == 0 <==> r1 != nil
+//@   ensures r1 == nil ==> in(r0, numbers) && (forall k :: 0 <= k && k < len(numbers) ==> numbers[k] <= r0)
+//@   loop 0 invariant (exists j :: 0 <= j && j < len(numbers) && numbers[j] == max) && (forall k :: 0 <= k && k < $i ==> numbers[k] <= max)
+//@ end
+
+//@ func Min
+//@   props C20
+//@   ensures len(numbers) == 0 <==> r1 != nil
+//@   ensures r1 == nil ==> in(r0, numbers) && (forall k :: 0 <= k && k < len(numbers) ==> numbers[k] >= r0)
+//@   loop 0 invariant (exists j :: 0 <= j && j < len(numbers) && numbers[j] == min) && (forall k :: 0 <= k && k < $i ==> numbers[k] >= min)
+//@ end
+
+//@ func Union
+//@   props C20 C16 C14
+//@   ensures nodup(r0)
+//@   ensures forall e: T :: in(e, r0) <==> (in(e, l1) || in(e, l2))
+//@   loop 0 invariant forall e: T :: has(s, e) <==> (exists k :: 0 <= k && k < $i && l1[k] == e)
+//@   loop 1 invariant forall e: T :: has(s, e) <==> (in(e, l1) || (exists k :: 0 <= k && k < $i && l2[k] == e))
+//@   loop 2 invariant len(r) == $n && (forall k :: 0 <= k && k < $n ==> r[k] == $key(k))
+//@ end
+
+//@ func Difference
+//@   props C20 C16 C14
+//@   ensures forall e: T :: in(e, r0) <==> (in(e, l1) && !in(e, l2))
+//@   loop 0 invariant forall e: T :: has(s, e) <==> (exists k :: 0 <= k && k < $i && l2[k] == e)
+//@   loop 1 invariant forall e: T :: in(e, r) <==> ((exists k :: 0 <= k && k < $i && l1[k] == e) && !in(e, l2))
+//@ end
+
+//@ func Intersect
+//@   props C20
+//@   ensures forall e: T :: in(e, r0) <==> (in(e, l1) && in(e, l2))
+//@   loop 0 invariant forall e: T :: has(s, e) <==> (exists k :: 0 <= k && k < $i && l1[k] == e)
+//@   loop 1 invariant forall e: T :: in(e, r) <==> (in(e, l1) && (exists k :: 0 <= k && k < $i && l2[k] == e))
+//@ end
